@@ -11,6 +11,37 @@ let string_of_q (q : Model.q) =
 let ext s = if s = "inf" || s = "-inf" then None else Some (q_of_string s)
 let vec s = List.map q_of_string (List.filter (fun x -> x <> "") (String.split_on_char ',' s))
 
+(* driver-trace replay: "c,a,b,c,d;c,a,b,c,d;..." *)
+let tev_of_string r : Model.tev =
+  match List.map z_of_string (String.split_on_char ',' r) with
+  | [c; a; b; d; e] -> ((((c, a), b), d), e)
+  | _ -> failwith "bad trace record"
+let string_of_tev (((((c, a), b), d), e) : Model.tev) =
+  String.concat "," (List.map string_of_z [c; a; b; d; e])
+let bits s = List.map (fun x -> x = "1") (String.split_on_char ',' s)
+let driver_query ps fs tr =
+  let obs = List.map tev_of_string (List.filter (fun x -> x <> "") (String.split_on_char ';' tr)) in
+  match bits ps, String.split_on_char ',' fs with
+  | [a; b; c; d; e], [fst; fbasis; fray; ffar] ->
+    let p = { Model.p_simp = a; Model.p_scaler = b; Model.p_persist = c; Model.p_ensureray = d; Model.p_objlim = e } in
+    (match Model.replay p obs with
+     | Model.Agree s ->
+       (* final flags as the user reads them *)
+       let mst = string_of_z (Model.st_code s.Model.status) in
+       let bb x = if x then "1" else "0" in
+       let flags_ok = (mst = fst || s.Model.status = Model.OTHER Model.Z0)
+                      && bb s.Model.has_basis = fbasis && bb s.Model.has_ray = fray && bb s.Model.has_farkas = ffar in
+       let ok_space = (not s.Model.has_sol) || Model.is_user_space s.Model.sol_space in
+       if not flags_ok then Printf.sprintf "flags:model=%s,%s,%s,%s" mst (bb s.Model.has_basis) (bb s.Model.has_ray) (bb s.Model.has_farkas)
+       else if not ok_space then "space"
+       else if s.Model.status = Model.OPTIMAL && not s.Model.sol_ok then "ungated"
+       else "true"
+     | Model.Differ (n, x, y) ->
+       let o = function None -> "end" | Some e -> string_of_tev e in
+       Printf.sprintf "differ:%d:model=%s:observed=%s" (int_of_nat n) (o x) (o y)
+     | Model.Stuck w -> Printf.sprintf "stuck:%s" (string_of_z w))
+  | _ -> "badquery"
+
 let () =
   let lines = read_lines (open_in Sys.argv.(1)) in
   let lp = ref None in
@@ -50,6 +81,8 @@ let () =
           | "opttol", [tp; td; tc; tv; x; s; y; d; v] ->
             let t = { Model.tp = q_of_string tp; Model.td = q_of_string td; Model.tc = q_of_string tc; Model.tv = q_of_string tv } in
             b (Model.check_opt_tol t p (vec x) (vec s) (vec y) (vec d) (q_of_string v))
+          | "driver", [ps; fs; tr] -> driver_query ps fs tr
+          | "driver", [ps; fs] -> driver_query ps fs ""
           | _ -> "badquery" in
         Printf.printf "A %s %s %s\n" tag kind res
       | _ -> ())
